@@ -420,7 +420,6 @@ func HarnessC01Enum() {
 	case 3: // a JSON number decoded with UseNumber, next to string members it must not be converted into
 		s.Enum = []interface{}{"A", "1"}
 		d = []json.Number{"65", "1", "2"}[verifChoose(3)]
-		verifKF("C01-KF-ENUM-CONVERT", true)
 	default:
 		d = map[string]interface{}{"a": genNum()}
 	}
